@@ -201,9 +201,9 @@ theorem nextRootEstimate_good {b : Bracket ExtRat} (hg : Good b) (x : ExtRat) :
   have hb := bracketed_of_good hg
   obtain ⟨lo, fl, hi, fh, rfl, hle, hs⟩ := hg
   have hmid : Inside (⟨fin lo, fin fl, fin hi, fin fh⟩ : Bracket ExtRat)
-      (extNum.div (extNum.add (fin lo) (fin hi)) extNum.two) := by
+      (middle extNum ⟨fin lo, fin fl, fin hi, fin fh⟩) := by
     refine ⟨lo, hi, (lo + hi) / 2, rfl, rfl, ?_, ?_, ?_⟩
-    · simp [ExtRat.add, ExtRat.div]
+    · simp [middle, ExtRat.add, ExtRat.div]
     · linarith
     · linarith
   unfold nextRootEstimate
@@ -225,7 +225,8 @@ theorem nextRootEstimate_good {b : Bracket ExtRat} (hg : Good b) (x : ExtRat) :
     rw [hc]
     split_ifs with hc2
     · exact ⟨_, rfl, hmid⟩
-    · simp only [extNum_lt, lt_fin, Bool.or_eq_true, decide_eq_true_eq, not_or, not_lt] at hc2
+    · simp only [extNum_isFinite, isFinite_fin, Bool.not_true, Bool.false_or, extNum_lt, lt_fin,
+        Bool.or_eq_true, decide_eq_true_eq, not_or, not_lt] at hc2
       exact ⟨_, rfl, lo, hi, _, rfl, rfl, rfl, hc2.1, hc2.2⟩
 
 /-- without a bracketed root `getNextRootEstimate` fails and leaves `x` alone -/
